@@ -2,7 +2,7 @@
 import CtyModel.Lemmas.StdNumInt
 import CtyModel.Lemmas.NumCmp
 namespace CtyModel
-namespace Stdlib
+namespace StdNum
 open Num Value NumCmp
 
 /-! ### the operation methods on known numbers -/
@@ -207,5 +207,5 @@ theorem coalesceLoop_skip (t : Ty) (nulls : List Value) (tail : List Value)
     simp only [List.cons_append, coalesceLoop, h1, h2, Bool.not_true, Bool.false_eq_true, if_false, if_true]
     exact ih (fun m hm => hn m (List.mem_cons_of_mem _ hm))
 
-end Stdlib
+end StdNum
 end CtyModel
